@@ -190,6 +190,12 @@ Definition catch_break (l : N) (body : M unit) : M unit :=
            | r => r
            end.
 
+(* [with_label scoped body]: run [body l] under a fresh label id l; a break to l ends it normally.  The id
+   is that of a dummy cell, so that a live label is a frame exactly like the cells of `//` and foreach and
+   follows the same discipline (dead at every exit; the id counter is reset when [scoped]). *)
+Definition with_label (scoped : bool) (body : N -> M unit) : M unit :=
+  with_cell scoped (VNull, None) (fun l => catch_break l (body l)) (fun _ => ret tt).
+
 (* ?// : gojq's opforkalt resumes the next alternative on ANY error that backtracks through it:
    errors of the pattern, of the body AND of the consumer; break and halt included *)
 Definition or_else (m alt : M unit) : M unit :=
@@ -967,7 +973,7 @@ Definition step_eval_t (E : evals) (rho : env) (t : term) (v : tv) (ps : pst) (k
                      end))))
               (fun _ => ret tt))
       | TLabel ident body =>
-          l <- fresh ;; catch_break l (ev_q E (BLabel ident l :: rho) body v ps k)
+          with_label (scoped_ids ps) (fun l => ev_q E (BLabel ident l :: rho) body v ps k)
       | TBreak name =>
           match lookup_label rho name with
           | Some l => raise (XBreak l)
